@@ -10,7 +10,7 @@ CHECKS = {
          'Every string of the enumerated neighbourhoods and languages gets the verdict of the reference grammar from each parser, with the nil/non-nil conventions and without panic. Exhaustive within the stated edit bounds; thorough enumerates the whole v2 language, all 2^22 v3 metric sets and all 2^21 v4 optional subsets.',
          'Trusted: reference grammar mc/spec/grammar.go (two formulations cross-checked on every string). Strings further than the edit bound from every seed are not explored.', '5 C01, 4 E1'),
  'C02': ('objspace', 'explicit-state enumeration of object states (full products of free metrics) on the implementation, reference serialiser as oracle',
-         'Every object state of the swept sub-spaces (v2: all 139,968,000 in thorough; v3/v4: all t-wise subsets, storage-order windows and presence subsets over 3 backgrounds) is built through the real Set, serialised and re-parsed; result must be == and Get-equal, independent of an earlier parse result that was edited, and the returned string must still read the same one state later. Exhaustive for v2, bounded-exhaustive for v3/v4.',
+         'Every object state of the swept sub-spaces (v2: all 139,968,000 in thorough; v3/v4: all t-wise subsets, storage-order windows and presence subsets over 3 backgrounds) is built through the real Set, serialised and re-parsed; result must be == and Get-equal, independent of an earlier parse result that was edited, and the returned string must still read the same one state later; an object reached by Set calls that does not read back is still required to serialise to an accepted string that parses to an == object. Exhaustive for v2, bounded-exhaustive for v3/v4.',
          'Trusted: reference tables/serialiser in mc/spec; reachability of only canonical states relies on the closure check of C07.', '5 C02, 4 E2'),
  'C03': ('scorespace', 'exhaustive enumeration of all 2 x 16,588,800 effective classes against an exact rational/integer model',
          'BaseScore, TemporalScore, EnvironmentalScore (and Impact/Exploitability) of every effective class of v3.0 and v3.1 equal the exact evaluation of the specification equations. Complete for effective classes in canonical representation, plus one alternative representation per overridable metric and the all-overridden pattern, plus a cold start (distinguished objects scored first in the process); deeper representation bounds in C10.',
@@ -55,10 +55,10 @@ CHECKS = {
          'Nomenclature equals the group-presence definition on every presence subset and (thorough) on the full product of the 15 threat+environmental metrics x 3 backgrounds.',
          'Objects are built through Set (C07).', '5 C16, 4 E2'),
  'C17': ('numspace', 'exhaustive per-call allocation measurement over all presence subsets / metrics / values in dedicated worker processes',
-         'Mallocs delta of single calls is within the documented budget for every presence subset of optional metrics, every metric/value for Get/Set, every scoring method, Rating and Nomenclature.',
+         'Mallocs delta of single calls is within the documented budget for every presence subset of optional metrics, every metric/value for Get/Set, Rating and Nomenclature; every scoring method on the canonical object of every effective class of every version (batches of 4096 objects between two readings of the counter).',
          'Measured on the toolchain in the image (go1.23.5 amd64); runtime Mallocs counter.', '5 C17, 4 E5'),
  'C18': ('strspace', 'bounded-exhaustive enumeration of single-defect strings classified by a reference automaton; errors.Is/As on the result',
-         'Every rejected string of the E1 spaces that has exactly one well-defined defect yields the documented error value (incl. the named abbreviation); Get/Set error values on the full C09 alphabets. One known finding (v2, element after a complete environmental group).',
+         'Every string of the E1 spaces that has exactly one well-defined defect yields the documented error value (incl. the named abbreviation; being accepted is not that value); Get/Set error values on the full C09 alphabets. One known finding (v2, element after a complete environmental group).',
          'Trusted: repair-based classifier mc/spec/classify.go; ambiguous strings are not asserted.', '5 C18, 4 E1'),
 }
 NOT_YET = {}
